@@ -52,7 +52,7 @@ class ModuleRef:
     def __init__(self, name, interp=None, attrs=None):
         self.name = name
         self.interp = interp
-        self.attrs = attrs or {}
+        self.attrs = attrs if attrs is not None else {}
 
 
 class Closure:
@@ -100,7 +100,7 @@ class _Break(Exception):
 
 
 HOST_TYPES = {"int": int, "str": str, "bool": bool, "float": float, "list": list, "dict": dict,
-              "tuple": tuple, "type": type, "object": object, "set": set}
+              "tuple": tuple, "type": type, "object": object, "set": set, "frozenset": frozenset}
 
 STR_METHODS = {"endswith", "startswith", "split", "join", "title", "lower", "upper", "replace",
                "splitlines", "strip", "lstrip", "rstrip", "capitalize", "removesuffix",
@@ -516,6 +516,9 @@ class Interp:
             if isinstance(op, ast.FloorDiv):
                 return a // b
             if isinstance(op, ast.Mod):
+                if isinstance(a, str):
+                    conv = lambda x: self.str_of(x) if isinstance(x, Record) else x   # noqa: E731
+                    b = tuple(conv(x) for x in b) if isinstance(b, tuple) else conv(b)
                 return a % b
             if isinstance(op, ast.BitOr):
                 return a | b
@@ -527,6 +530,8 @@ class Interp:
             raise Raised("TypeError", (str(e),))
         except ZeroDivisionError as e:
             raise Raised("ZeroDivisionError", (str(e),))
+        except (ValueError, OverflowError) as e:
+            raise Raised(type(e).__name__, (str(e),))
         raise AnalysisError(f"{self.name}: binary operator {type(op).__name__}")
 
     def e_BinOp(self, n, env):
@@ -792,10 +797,12 @@ class Interp:
             return self.apply(f.attrs["__call__"], args, kwargs)
         if f is type and len(args) == 1:
             return type(args[0]) if not isinstance(args[0], (Record, ClassRef, ModuleRef)) else ClassRef("type")
-        if isinstance(f, type) and f in (str, int, bool, float, list, tuple, set, dict):
+        if isinstance(f, type) and f in (str, int, bool, float, list, tuple, set, dict, frozenset):
             try:
                 if f is str and args and isinstance(args[0], Record):
                     return self.str_of(args[0])
+                if f in (list, tuple, set, frozenset) and args:
+                    return f(self.iterate(args[0]))
                 return f(*args, **kwargs)
             except (ValueError, TypeError) as e:
                 raise Raised(type(e).__name__, e.args)
@@ -981,6 +988,27 @@ def _load(target):
 # ------------------------------------------------------------------------------------------------
 # usage-shape side conditions
 
+def _is_format_operand(n, p, parents) -> bool:
+    """`"...%d" % (a, n)`, `"...%s" % n`, `"...{}".format(n)`, str(n) / repr(n): the value only ends up in a message
+    (the conversion may raise for some argument classes; that is what evaluating a representative per class decides)."""
+    if isinstance(p, ast.Tuple):
+        gp = parents.get(p)
+        return isinstance(gp, ast.BinOp) and isinstance(gp.op, ast.Mod) and gp.right is p \
+            and isinstance(gp.left, (ast.Constant, ast.JoinedStr))
+    if isinstance(p, ast.BinOp) and isinstance(p.op, ast.Mod) and p.right is n and isinstance(p.left, (ast.Constant, ast.JoinedStr)):
+        return True
+    if isinstance(p, ast.Call) and isinstance(p.func, ast.Attribute) and p.func.attr == "format" \
+            and isinstance(p.func.value, ast.Constant) and isinstance(p.func.value.value, str):
+        return True
+    if isinstance(p, ast.keyword):
+        gp = parents.get(p)
+        return isinstance(gp, ast.Call) and isinstance(gp.func, ast.Attribute) and gp.func.attr == "format" \
+            and isinstance(gp.func.value, ast.Constant)
+    if isinstance(p, ast.Call) and _dotted(p.func) in ("str", "repr") and len(p.args) == 1 and p.args[0] is n:
+        return True
+    return False
+
+
 def param_uses(fn: ast.FunctionDef, param: str):
     """Classify every occurrence of parameter `param` in fn by syntactic context.
     Returns a list of (context, node) with context in:
@@ -1002,6 +1030,8 @@ def param_uses(fn: ast.FunctionDef, param: str):
             elif isinstance(p, ast.Compare):
                 out.append(("compare", p))
             elif isinstance(p, ast.FormattedValue):
+                out.append(("format", p))
+            elif _is_format_operand(n, p, parents):
                 out.append(("format", p))
             else:
                 out.append(("other", p))
